@@ -19,7 +19,36 @@ if ! (cd "$here/mc" && go build $mf -tags "$tags" -overlay "$ovl/overlay.json" -
   echo "HARNESS-ERROR: build failed" >&2; cat "$bin.err" >&2; rm -f "$bin.err"; exit 2
 fi
 rm -f "$bin.err"
-trc=0
+if [ "$id" = "C18" ] && [ "$mode" != "replay" ]; then
+  # supporting pass: the same thread bodies free-running under the race detector (pure-Go kernels so that
+  # kernel stores are instrumented). A reported race fails the check; silence proves nothing.
+  rbin="$here/bin/race.$$"
+  if ! (cd "$here/mc" && go build $mf -race -tags "$tags" -overlay "$ovl/overlay.json" -o "$rbin" . ) 2> "$bin.err"; then
+    echo "HARNESS-ERROR: -race build failed" >&2; cat "$bin.err" >&2; rm -f "$bin.err" "$rbin"; exit 2
+  fi
+  GORACE="halt_on_error=0 exitcode=66" timeout 600 "$rbin" racepass > "$ovl/race.log" 2>&1; rrc=$?
+  rm -f "$rbin" "$bin.err"
+  races=$(grep -c 'WARNING: DATA RACE' "$ovl/race.log")
+  python3 - "$ovl/race.json" "$races" "$rrc" <<'PY'
+import json,sys
+json.dump({"race_pass":{"build":"-race -tags 'verif decimal_pure_go'","scenarios":8,"rounds":30,"gomaxprocs":[2,16],"data_races_reported":int(sys.argv[2]),"exit":int(sys.argv[3])}},open(sys.argv[1],"w"))
+PY
+  export VERIF_EXTRA_EVIDENCE="$ovl/race.json"
+  if [ "$races" -gt 0 ]; then
+    mkdir -p "$here/replays"; cp "$ovl/race.log" "$here/replays/C18-race.log"
+    echo "VIOLATION property=C18 replay=$here/replays/C18-race.log"
+    echo "  the race detector reported $races data race(s) in the free-running pass:"; grep -A12 'WARNING: DATA RACE' "$ovl/race.log" | head -30
+    racefail=1
+  elif [ $rrc -eq 3 ] || [ $rrc -eq 124 ]; then
+    mkdir -p "$here/replays"; cp "$ovl/race.log" "$here/replays/C18-race.log"
+    echo "VIOLATION property=C18 replay=$here/replays/C18-race.log"
+    echo "  the free-running concurrent pass did not terminate (exit $rrc): $(grep NON-TERMINATION "$ovl/race.log" | head -1)"
+    racefail=1
+  elif [ $rrc -ne 0 ]; then
+    echo "HARNESS-ERROR: race pass exited with $rrc" >&2; tail -20 "$ovl/race.log" >&2; exit 2
+  fi
+fi
+trc=${racefail:-0}
 if [ "$id" = "C07" ] && [ "$mode" != "replay" ]; then
   export VERIF_EXTRA_EVIDENCE="$ovl/transcripts.json"
   "$here/scripts/transcripts.sh" "$VERIF_EXTRA_EVIDENCE"; trc=$?
